@@ -14,8 +14,10 @@ HARNESS = os.path.join(VERIF, "harness")
 REPO = os.environ.get("VERIF_REPO", "/repo")
 GOENV = dict(GOFLAGS="-mod=mod", GOPROXY="off", GOSUMDB="off", GOTOOLCHAIN="local")
 
-with open(os.path.join(VERIF, "tools", "props.json")) as f:
-    PROPS = json.load(f)
+PROPS = {}
+for _f in sorted(glob.glob(os.path.join(VERIF, "tools", "props.d", "*.json"))):
+    with open(_f) as f:
+        PROPS[os.path.basename(_f)[:-5]] = json.load(f)
 
 
 def env_for_go():
